@@ -88,11 +88,7 @@ impl Codec {
     ///
     /// If max size is set to `0`, size is unlimited.
     /// By default max size is set to `0`
-    pub fn set_max_outbound_size(&self, mut size: u32) {
-        if size > 5 {
-            // fixed header = 1, var_len(remaining.max_value()) = 4
-            size -= 5;
-        }
+    pub fn set_max_outbound_size(&self, size: u32) {
         self.max_out_size.set(size);
     }
 
@@ -307,11 +303,15 @@ impl Encoder for Codec {
             }
         }
 
-        let max_out_size = self.max_out_size.get();
-        let max_size = if max_out_size != 0 {
-            max_out_size
-        } else {
-            MAX_PACKET_SIZE
+        // max size of the packet content (remaining length)
+        let max_size = match self.max_out_size.get() {
+            0 => MAX_PACKET_SIZE,
+            // not even the fixed header fits
+            1 => return Err(EncodeError::OverMaxPacketSize),
+            // fixed header = 1, var_len(remaining) = 1
+            size @ 2..=5 => size - 2,
+            // fixed header = 1, var_len(remaining.max_value()) = 4
+            size => size - 5,
         };
         match item {
             Encoded::Packet(pkt) => {
